@@ -51,6 +51,7 @@ vars == <<prog, fi, ci, ph, cur, recv, diags>>
 Kinds  == {"ctor1", "ctor2", "other", "pmeth", "vmeth", "cmeth", "ometh", "init", "pkgvar"}
 Stmts  == {"assignX", "assignM", "multiX", "compoundX", "compoundM", "incX", "decX", "incM", "indexXs", "indexMp",
            "readX", "onU", "local", "recvAssign", "recvInc", "recvDec", "starPlain", "starPlainInc",
+           "onHidden",   \* d.Hidden().X = v : hidden is an unexported type of d (@immutable iff T is) handed out by an exported function
            "onT2"}   \* q.X = v with q *T2, a second @immutable type of d with `@constructor NewT2` (iff T is @immutable)
 Nests  == {"none", "if", "else", "for", "range", "switch", "select", "funclit", "defer", "go", "label",
            "funcassign", "funcvar", "funcarg", "funcfield", "block", "ifinit", "typeswitch"}
@@ -72,7 +73,7 @@ Valid(c, pkg) ==
   /\ (c.kind = "cmeth" <=> c.stmt \in {"recvInc", "recvDec"})
   /\ (c.kind = "cmeth" => c.via = "p" /\ c.ptr)
   /\ (c.via = "r" => c.ptr = (c.kind = "pmeth"))
-  /\ (c.stmt \in {"onT2", "local", "recvInc", "recvDec", "starPlain", "starPlainInc"} => c.ptr /\ c.sp = "direct" /\ c.via = "p")
+  /\ (c.stmt \in {"onT2", "onHidden", "local", "recvInc", "recvDec", "starPlain", "starPlainInc"} => c.ptr /\ c.sp = "direct" /\ c.via = "p")
   /\ (c.stmt = "onU" => c.ptr /\ c.sp \in {"direct", "fnalias"} /\ c.via = "p")
   /\ (c.sp = "fnalias" => c.ptr /\ c.via = "p" /\ c.kind \in {"ctor1", "other", "init", "ometh"})
   \* `*r = v` on a plain *int that is merely *named* like the receivers of the methods (all receivers are called r)
@@ -85,7 +86,7 @@ FnName(c) == CASE c.kind = "ctor1" -> "NewT" [] c.kind = "ctor2" -> "MakeT" [] c
                [] c.kind = "pkgvar" -> "" [] OTHER -> "fn"
 RecvOf(c) == CASE c.kind \in {"pmeth", "vmeth"} -> "T" [] c.kind = "cmeth" -> "C" [] c.kind = "ometh" -> "O" [] OTHER -> ""
 
-WriteCode(s) == CASE s \in {"assignX", "assignM", "multiX", "recvAssign", "onT2"} -> "IMM01"
+WriteCode(s) == CASE s \in {"assignX", "assignM", "multiX", "recvAssign", "onT2", "onHidden"} -> "IMM01"
                   [] s \in {"compoundX", "compoundM"} -> "IMM02"
                   [] s \in {"incX", "decX", "incM", "recvInc", "recvDec"} -> "IMM03"
                   [] s \in {"indexXs", "indexMp"} -> "IMM04"
@@ -99,7 +100,7 @@ Verdict(c, ann, pkg) ==
   IF /\ ann.imm
      /\ WriteCode(c.stmt) # "none"
      /\ ~(OnMutableField(c.stmt) /\ ann.mut)
-     /\ ~(c.stmt # "onT2" /\ pkg = "d" /\ FnName(c) \in Range(ann.ctors) /\ c.kind \in {"ctor1", "ctor2"})
+     /\ ~(c.stmt \notin {"onT2", "onHidden"} /\ pkg = "d" /\ FnName(c) \in Range(ann.ctors) /\ c.kind \in {"ctor1", "ctor2"})
   THEN WriteCode(c.stmt) ELSE "none"     \* NewT / MakeT are constructors of T, not of T2
 
 Keys(p) == UNION {{<<f, i>> : i \in 1..Len(p.files[f])} : f \in 1..Len(p.files)}
@@ -113,7 +114,7 @@ UniqueCtors(fs) ==
   LET all == UNION {{<<f, i>> : i \in 1..Len(fs[f])} : f \in 1..Len(fs)}
   IN \A k \in {"ctor1", "ctor2"} : Cardinality({x \in all : fs[x[1]][x[2]].kind = k}) <= 1
 
-SeqStmts == {"assignX", "incX", "readX", "assignM", "starPlain", "onT2"}
+SeqStmts == {"assignX", "incX", "readX", "assignM", "starPlain", "onT2"}     \* (onHidden only in the single mode)
 SeqAnns  == {a \in Anns : a.imm /\ ~a.noise /\ a.ctors # <<"NewT", "MakeT">>}
 SeqCont(pkg) == {c \in {Cont(k, s, "p", TRUE, "none", "direct") : k \in Kinds \ {"cmeth", "ometh", "ctor2"}, s \in SeqStmts} : Valid(c, pkg)}
 
@@ -170,7 +171,8 @@ Seen(c) == ~("NoUnalias" \in Deviations /\ c.sp \in {"alias", "alias3", "ptralia
 VisitVerdict(c) ==
   LET code == WriteCode(c.stmt)
       ownPkg == prog.pkg = "d" \/ "CtorAnyPkg" \in Deviations
-      ctorsOfType == IF c.stmt = "onT2" /\ ~("CtorAnyType" \in Deviations) THEN {"NewT2"} ELSE Range(prog.ann.ctors)
+      ctorsOfType == IF c.stmt = "onT2" /\ ~("CtorAnyType" \in Deviations) THEN {"NewT2"}
+                     ELSE IF c.stmt = "onHidden" THEN {} ELSE Range(prog.ann.ctors)
       exempt == ownPkg /\ cur \in ctorsOfType
   IN IF c.stmt \in {"starPlain", "starPlainInc"}
        THEN (IF prog.ann.imm /\ recv \in {"T", "C"} /\ ~exempt THEN (IF c.stmt = "starPlain" THEN "IMM01" ELSE "IMM03") ELSE "none")
